@@ -143,6 +143,9 @@ func (m *Machine) chanSelect(fr *frame, instr *ssa.Select) value {
 }
 
 func registerChanNatives(P *Program, reg func(string, func(fr *frame, args []value) value)) {
+	// hc.NewIPTransport creates an mDNS responder (sockets); a transport that is never started
+	// does not use it
+	reg("github.com/brutella/dnssd.NewResponder", func(fr *frame, a []value) value { return tuple{iface{}, iface{}} })
 	reg("time.After", func(fr *frame, a []value) value {
 		m := fr.m
 		var z value
